@@ -549,13 +549,16 @@ var rawAcquirers = map[string]string{
 
 func ruleL8(c *Ctx, id string) {
 	V, P, R := c.V, c.P, c.R
-	R.Rule(id, "nobody waits while holding the lock of a free inode: the raw by-number acquirers (GetInodeLocked, GetInodeInumFree) are called only from the frozen sites where the number is known to name an allocated (or just allocated) inode; every other acquisition by number goes through GetInodeInum, which gives a free inode up at once", 5)
-	free := P.Func("fstxn.(*FsTxn).GetInodeInumFree")
-	if V.GetInodeLocked == nil || free == nil {
-		R.Fail(id, "vocabulary|raw acquirers", "", "GetInodeLocked and GetInodeInumFree exist", "not found")
+	R.Rule(id, "nobody waits while holding the lock of a free inode: the raw by-number acquirers (GetInodeLocked, GetInodeInumFree) are called only from the frozen sites where the number is known to name an allocated (or just allocated) inode; every other acquisition by number goes through GetInodeInum, which gives a free inode up at once", 4)
+	free := P.Func("fstxn.(*FsTxn).GetInodeInumFree") // (a plain wrapper; a tree may do without it)
+	if V.GetInodeLocked == nil {
+		R.Fail(id, "vocabulary|raw acquirers", "", "GetInodeLocked exists", "not found")
 		return
 	}
 	for _, tgt := range []*ssa.Function{V.GetInodeLocked, free} {
+		if tgt == nil {
+			continue
+		}
 		for _, cs := range P.CallersOf(tgt) {
 			if !IsRepoFunc(cs.Caller) {
 				continue
